@@ -88,6 +88,15 @@ CHECKS['C15'] = dict(level=MC, ref='4 C15',
          'measure, to_tensor, reverse, copy/clone/shallow_copy, canonize_/truncate_/orthogonalize_site_/absorb_central_/item assignment), 4/24 PEPS sequences (copy/clone/shallow_copy, item assignment, '
          'apply_gate_, Peps2Layers copy/clone); environments not driven yet; the API list is explicit in the drivers, not introspected',
     technique='TLA+ aliasing model (Heap) + TLC + trace validation of recorded public calls with before/after digests of all live objects')
+CHECKS['C17'] = dict(level=MC, ref='4 C17',
+    text='Serialize.tla is a state machine over serialisation FORMS (obj, dict, split, legacy, hdf5, done) tracking level and whether a pending permutation is still pending; TLC explores ALL routes to '
+         'depth 6 (to_dict level 0..2 with/without resolve_ops, older-generation dict, split/combine repeatedly, numpy save/load, legacy save_to_dict, HDF5, from_dict with config none/same/other '
+         'symmetry/other statistics) for tensors, MPS, MPO, PEPS, checks the outcome invariant and emits every terminal case. Each case is replayed on real objects (S->I) and TraceSerialize.tla decides: '
+         'outcome as the route implies (restored vs YastnError), restored object observationally identical (legs incl. fusion history, charge, dtype, values, geometry), same follow-up contraction, '
+         'pending-permutation semantics; to_dict(meta=) is checked as an exactly linear, norm-preserving, invertible map that rejects tensors outside the layout.',
+    note='bounded: 40 tensor variants (plain, complex, diagonal, hard/meta/nested fused, empty, scalar x 5 symmetries; lazily transposed or not), MPS plain/central block/non-unit factor in 3 symmetries, '
+         'MPO, PEPS on 7 lattice types x 2 symmetries; quick replays a seeded 25% of case x variant; environments and MpoPBC not yet covered',
+    technique='TLA+ state machine of serialisation routes (Serialize) + TLC exhaustive enumeration + replay of every terminal case into code + trace validation of observed outcomes')
 NA = {}
 m = {"version": 1, "setup_cmd": "true",
      "hooks": {"guard": "YASTN_VERIF", "enable": "no source hooks so far: the harness wraps the public API from outside and imports yastn live from /repo (override: VERIF_REPO)",
